@@ -1,6 +1,6 @@
 """Core of the rule engine: fact loading, CFG, dominators, call graph, canonical
 expressions over MIR.  Python stdlib only."""
-import json, re, sys
+import copy, json, re, sys
 from collections import defaultdict, deque
 
 # --------------------------------------------------------------------------- facts
@@ -49,10 +49,21 @@ class Facts:
                 f.hir = model_std_hir(f.hir, self)
                 f.x['hir'] = f.hir
         for f in self.fns.values():
+            if f.hir and f.kind != 'Closure':
+                try:
+                    f.hir = split_chain_loops(f.hir, self)
+                    f.x['hir'] = f.hir
+                except Exception as e:
+                    self.chain_error = '%s: %s' % (type(e).__name__, e)
+        for f in self.fns.values():
             m2 = model_std_calls(f.body.mir, self, f.path)
             if m2 is not None:
                 f.x['mir'] = m2
                 f.body = Body(self, m2, f.path)
+        try:
+            devirt_provided_forwarders(self)
+        except Exception as e:
+            self.devirt_error = '%s: %s' % (type(e).__name__, e)
         self.sroa = []
         try:
             sroa_private_params(self)
@@ -944,6 +955,18 @@ def hcanon(e, env=None):
         return ('repeat', hcanon(e['x'], env), e.get('ty'))
     if k == 'array':
         return ('array', tuple(hcanon(x, env) for x in e['xs']))
+    if k == 'block' and not e.get('unsafe') and e.get('tail') is not None:
+        # a pure block expression: immutable `let`s in front of a value
+        env2 = dict(env) if env is not None else {}
+        for st in e.get('stmts', []):
+            if st.get('k') == 'let' and isinstance(st.get('pat'), dict) and st['pat'].get('k') == 'bind' and st['pat'].get('mode', '').endswith('Not)') \
+                    and 'init' in st and 'else' not in st:
+                env2[st['pat']['id']] = hcanon(st['init'], env2)
+            elif is_debug_assert_stmt(st):
+                continue
+            else:
+                return ('hir', k, e.get('line'))
+        return hcanon(e['tail'], env2)
     return ('hir', k, e.get('line'))
 
 
@@ -1352,9 +1375,14 @@ def simple_expr_fn(fn):
     h = fn.hir
     v = strip_refs(h['value'])
     if v.get('k') == 'block':
-        if any(not is_debug_assert_stmt(st) for st in v.get('stmts', [])) or v.get('tail') is None or v.get('unsafe'):
+        def harmless(st):
+            return is_debug_assert_stmt(st) or (st.get('k') == 'let' and isinstance(st.get('pat'), dict) and st['pat'].get('k') == 'bind'
+                                                and st['pat'].get('mode', '').endswith('Not)') and 'init' in st and 'else' not in st)
+        if any(not harmless(st) for st in v.get('stmts', [])) or v.get('tail') is None or v.get('unsafe'):
             return None
-        v = v['tail']
+        if all(is_debug_assert_stmt(st) for st in v.get('stmts', [])):
+            v = v['tail']
+        # otherwise the block (immutable lets + value) is the expression: hcanon evaluates the lets
     ids = []
     for p in h['params']:
         if p.get('k') != 'bind':
@@ -1950,6 +1978,203 @@ def model_std_hir(n, facts):
             return {'k': 'if', 'cond': out['recv'], 'then': {'k': 'block', 'stmts': [], 'tail': some}, 'else': {'k': 'block', 'stmts': [], 'tail': none},
                     'ty': ty, 'line': out.get('line'), 'modelled': 'bool::then'}
     return out
+
+
+INT_TYS = ('usize', 'u8', 'u16', 'u32', 'u64', 'u128', 'isize', 'i8', 'i16', 'i32', 'i64', 'i128')
+
+
+def split_chain_loops(root, facts):
+    """`for PAT in (a..b).chain(c..d) { BODY }` as `for PAT in a..b { BODY }  for PAT in c..d { BODY }` (HIR): a chain of two
+    half-open integer ranges yields a, .., b-1, c, .., d-1 in that order.  The iterator may be written in place, bound to an
+    immutable local first (used directly or through `.clone()`), or produced by calling a local argument-less closure; the four
+    bounds must be immutable integer locals, constants or literals so that evaluating them once (chain) or twice (two loops) is
+    the same.  `break` inside BODY would leave only the first of the two loops, so bodies containing a `break` are left alone."""
+    lets, muts = {}, set()
+    for (m, _) in hir_find(root, lambda m: m.get('k') == 'let' and isinstance(m.get('pat'), dict) and m['pat'].get('k') == 'bind'):
+        if m['pat'].get('mode', '').endswith('Not)') and isinstance(m.get('init'), dict) and 'else' not in m:
+            lets[m['pat']['id']] = m['init']
+    for (m, _) in hir_find(root, lambda m: m.get('k') == 'bind' and not m.get('mode', '').endswith('Not)')):
+        muts.add(m.get('id'))
+
+    def stable(e):
+        e = strip_refs(e)
+        k = e.get('k')
+        if k == 'lit':
+            return True
+        if k == 'path':
+            if e.get('res') == 'local':
+                return e.get('id') not in muts and (e.get('ty') or '') in INT_TYS
+            return e.get('def_kind') in ('Const', 'AssocConst', 'ConstParam')
+        if k == 'bin' and not e.get('overloaded'):
+            return stable(e['l']) and stable(e['r'])
+        if k == 'cast':
+            return stable(e['x'])
+        return False
+
+    def resolve(it, depth=0):
+        it = strip_refs(it)
+        if depth > 3:
+            return None
+        k = it.get('k')
+        if k == 'mcall' and it.get('name') == 'chain' and (it.get('path') or '').endswith('Iterator::chain') and len(it.get('args', [])) == 1:
+            a, b = is_range_struct(it['recv']), is_range_struct(it['args'][0])
+            if a and b and all(x is not None for x in a[:2] + b[:2]) and not a[2] and not b[2] and all(stable(x) for x in a[:2] + b[:2]):
+                return strip_refs(it['recv']), strip_refs(it['args'][0])
+            return None
+        if k == 'mcall' and it.get('name') == 'clone' and not it.get('args'):
+            return resolve(it['recv'], depth + 1)
+        if k == 'path' and it.get('res') == 'local' and it.get('id') in lets:
+            return resolve(lets[it['id']], depth + 1)
+        if k == 'call' and not it.get('args') and it['f'].get('k') == 'path' and it['f'].get('res') == 'local' and it['f'].get('id') in lets:
+            c = strip_refs(lets[it['f']['id']])
+            g = facts.fns.get(c.get('def')) if c.get('k') == 'closure' else None
+            if g is not None and g.hir and not g.hir.get('params'):
+                v = strip_refs(g.hir['value'])
+                while v.get('k') == 'block' and not v.get('stmts') and v.get('tail') is not None:
+                    v = strip_refs(v['tail'])
+                return resolve(v, depth + 1)
+        return None
+
+    changed = [0]
+
+    def rec(n):
+        if isinstance(n, list):
+            return [rec(x) for x in n]
+        if not isinstance(n, dict):
+            return n
+        out = {k: (rec(v) if isinstance(v, (dict, list)) else v) for k, v in n.items()}
+        fl = for_loop_parts(out)
+        if fl:
+            parts = resolve(fl[1])
+            if parts and not hir_find(fl[2], lambda m: m.get('k') == 'break'):
+                loops = []
+                for rg in parts:
+                    c = copy.deepcopy(out)
+                    c['scrut']['args'][0] = copy.deepcopy(rg)
+                    c['modelled'] = 'chain-of-ranges'
+                    loops.append({'k': 'expr', 'e': c})
+                changed[0] += 1
+                return {'k': 'block', 'stmts': loops, 'tail': None, 'ty': '()', 'line': out.get('line'), 'modelled': 'chain-of-ranges'}
+        return out
+    res = rec(root)
+    return res if changed[0] else root
+
+
+def _ty_adt(ty):
+    """`a::b::C<..>` -> `a::b::C` (None for references, projections, parameters)"""
+    if not isinstance(ty, str) or not re.match(r'^[A-Za-z_][\w:]*(<.*>)?$', ty) or '::' not in ty:
+        return None
+    return ty.split('<', 1)[0]
+
+
+def provided_forwarder(facts, path):
+    """If crate trait method `path` is a provided method whose body only forwards all its parameters, in order, to one method of
+    an associated type of Self -- `fn encoder(a, b) -> .. { Self::RateEncoder::new(a, b) }` -- return
+    (trait of the projection, associated type name, callee dict); else None."""
+    fn = facts.fns.get(path)
+    if fn is None or not fn.in_trait:
+        return None
+    body = fn.body
+    calls = [(b, t) for b, t in body.calls() if not body.mir['blocks'][b].get('cleanup')]
+    if len(calls) != 1:
+        return None
+    b, t = calls[0]
+    cal = t['callee']
+    m = re.match(r'^<Self as ([\w:]+)(<.*>)?>::(\w+)$', cal.get('self_ty') or '')
+    if not m or not cal.get('unresolved') or b != 0 or len(t['args']) != body.mir['arg_count']:
+        return None
+    for i, a in enumerate(t['args']):
+        c = body.canon_op(a)
+        if not (c[0] == 'param' and fn.param_names()[i:i + 1] == [c[1]]):
+            return None
+    d = t.get('dest')
+    if not d or d['l'] != 0 or d['p'] or t.get('target') is None:
+        return None
+    tb = body.mir['blocks'][t['target']]
+    if tb['stmts'] or tb['term']['k'] != 'return':
+        return None
+    for blk in body.mir['blocks']:
+        if blk.get('cleanup'):
+            continue
+        for st in blk['stmts']:
+            if not (st['k'] == 'assign' and st['rv'].get('k') == 'use') and st['k'] not in ('storage_live', 'storage_dead', 'nop'):
+                return None
+    return m.group(1), m.group(3), cal
+
+
+def devirt_provided_forwarders(facts):
+    """`HighRate::<E>::encoder(..)`, a provided trait method nobody overrides whose body is `Self::RateEncoder::new(..)`, names the
+    same function as `HighRateEncoder::<E>::new(..)`: calls to such forwarders with a concrete Self are rewritten to their target
+    (MIR callee and HIR path), repeatedly (`HighRateEncoder::<E>::validate` -> `HighRate::<E>::validate`)."""
+    impls = defaultdict(dict)        # (trait, adt) -> impl
+    for im in facts.impls:
+        a = _ty_adt(im.get('self_ty'))
+        if a and im.get('trait'):
+            impls[(im['trait'], a)] = im
+    fw = {}
+    n = [0]
+
+    def resolve(decl, self_ty, depth=0):
+        """-> (decl, self_ty, path, trait, trait_ref) of the function finally named, or None when nothing changes"""
+        if depth > 3:
+            return None
+        if decl not in fw:
+            fw[decl] = provided_forwarder(facts, decl)
+        f = fw[decl]
+        adt = _ty_adt(self_ty)
+        if f is None or adt is None:
+            return None
+        tr, assoc, cal = f
+        fn = facts.fns[decl]
+        im = impls.get((tr, adt))
+        if im is None:
+            return None
+        # the concrete type does not override the provided method
+        if fn.in_trait == tr and any(it['name'] == fn.name and it['kind'] == 'Fn' for it in im['items']):
+            return None
+        if fn.in_trait != tr:
+            own = impls.get((fn.in_trait, adt))
+            if own is None or any(it['name'] == fn.name and it['kind'] == 'Fn' for it in own['items']):
+                return None
+        tys = [it['ty'] for it in im['items'] if it['name'] == assoc and it['kind'] == 'Type']
+        if len(tys) != 1 or _ty_adt(tys[0]) is None:
+            return None
+        T = tys[0]
+        tim = impls.get((cal['trait'], _ty_adt(T)))
+        if tim is None:
+            return None
+        name = cal['decl'].rsplit('::', 1)[1]
+        own = [it['path'] for it in tim['items'] if it['name'] == name and it['kind'] == 'Fn']
+        res = (cal['decl'], T, own[0] if own else cal['decl'], cal['trait'], tim.get('trait_ref') or cal['trait'])
+        if not own:
+            deeper = resolve(cal['decl'], T, depth + 1)
+            if deeper:
+                return deeper
+        return res
+
+    for f in list(facts.fns.values()):
+        for b, t in f.body.calls():
+            cal = t['callee']
+            d = cal.get('decl')
+            if not cal.get('local') or d not in facts.fns or cal.get('path') != d or cal.get('unresolved'):
+                continue
+            r = resolve(d, cal.get('self_ty'))
+            if r is None:
+                continue
+            decl, T, path, tr, tref = r
+            key = '<%s as %s>::%s' % (T, tref, decl.rsplit('::', 1)[1])
+            cal.update({'decl': decl, 'self_ty': T, 'path': path, 'trait': tr, 'key': key, 'decl_args': [T] + list(cal.get('decl_args') or [])[1:],
+                        'devirt_from': d})
+            n[0] += 1
+        if f.hir:
+            def visit(nd, parents):
+                if nd.get('k') == 'path' and nd.get('def_kind') == 'AssocFn' and nd.get('path') in facts.fns and facts.fns[nd['path']].in_trait and nd.get('self_ty'):
+                    r = resolve(nd['path'], nd['self_ty'])
+                    if r:
+                        nd['devirt_from'] = nd['path']
+                        nd['path'], nd['self_ty'] = r[2], r[1]
+            hir_walk(f.hir, visit)
+    facts.devirt = n[0]
 
 
 # --------------------------------------------------------------------------- private parameter structs
